@@ -1193,6 +1193,7 @@ class Engine:
                 for cls in self.ext.app_raises:
                     c2 = ctx.fork()
                     ex = Exc(cls, [], {'error_args': S(smt.fresh('error_args', V))} if cls.endswith('RefusedError') else {})
+                    ex.origin = 'external'
                     c2.notes.append(('api', f.path, args, dict(kwargs), r, ex))
                     yield c2, Raised(ex)
             ctx.notes.append(('api', f.path, args, dict(kwargs), r, None))
@@ -1291,7 +1292,9 @@ class Engine:
             ctx.notes.append(('called', qual, dict(vals), pre, ctx.st, 'return'))
             c2.notes.append(('called', qual, dict(vals), pre, c2.st, 'raise'))
             yield ctx, S(smt.fresh('res_' + f.name, V))
-            yield c2, Raised(Exc('AppException', []))
+            ex_ = Exc('AppException', [])
+            ex_.origin = 'abstract-callee'
+            yield c2, Raised(ex_)
             return
         contract = self.registry.lookup(qual, obj, self.schema) if self.registry else None
         ext = self.ext.method_override(self, ctx, obj, qual, f.name)
@@ -1466,9 +1469,12 @@ class Engine:
             if isinstance(v, Raised):
                 yield Out('raise', c, v.exc)
             elif isinstance(v, Exc):
+                v.origin = getattr(v, 'origin', None) or 'raise-statement'
                 yield Out('raise', c, v)
             elif isinstance(v, ClassV):
                 for c2, x in self.ext.construct(self, c, v, PySeq([], 'tuple'), {}):
+                    if not isinstance(x, Raised):
+                        x.origin = 'raise-statement'
                     yield Out('raise', c2, x.exc if isinstance(x, Raised) else x)
             else:
                 raise Unsupported('raise of %r' % (v,))
